@@ -270,8 +270,41 @@ func ruleR02b(c *Ctx) {
 			if u, ok := arg.(*ssa.UnOp); ok && u.Op == token.MUL {
 				cell, _ = u.X.(*ssa.Alloc)
 			}
+			// … or the result of a helper of the package that builds it (`m, accounts, err := prepare(…)`): the
+			// literal of the helper's successful return, and the machine it returns alongside
+			var helperCall *ssa.Call
+			var helperMach ssa.Value // the machine value inside the helper
+			helperMachIdx := -1
 			if cell == nil {
-				c.undecided(rule, name+":lock-argument", call.Pos(), "the Accounts argument of Lock is not a local composite literal: outside the accepted idiom")
+				if ex, ok := arg.(*ssa.Extract); ok {
+					if hc, ok := ex.Tuple.(*ssa.Call); ok {
+						if h := staticCallee(hc); h != nil && inRepo(fnPkgPath(h)) && len(h.Blocks) > 0 {
+							ei := errResultIdx(h.Signature)
+							for _, b := range h.Blocks {
+								ret, ok := b.Instrs[len(b.Instrs)-1].(*ssa.Return)
+								if !ok || ex.Index >= len(ret.Results) {
+									continue
+								}
+								if ei >= 0 && !isNilConst(ret.Results[ei]) {
+									continue // failure returns carry no lock set
+								}
+								if u, ok := ret.Results[ex.Index].(*ssa.UnOp); ok && u.Op == token.MUL {
+									if a, ok := u.X.(*ssa.Alloc); ok {
+										cell, helperCall = a, hc
+										for j, rv := range ret.Results {
+											if strings.HasSuffix(rv.Type().String(), "vm.Machine") {
+												helperMach, helperMachIdx = rv, j
+											}
+										}
+									}
+								}
+							}
+						}
+					}
+				}
+			}
+			if cell == nil {
+				c.undecided(rule, name+":lock-argument", call.Pos(), "the Accounts argument of Lock is not a local composite literal (of the function or of a helper returning it): outside the accepted idiom")
 				return
 			}
 			var readVal, writeVal ssa.Value
@@ -320,6 +353,19 @@ func ruleR02b(c *Ctx) {
 				// same machine: ResolveResources receiver must be the machine that is executed in this function
 				mach := rr.Call.Args[0]
 				sameMachine := true
+				if helperCall != nil {
+					// resolved inside the helper: the helper must hand that very machine back, and the function must
+					// execute the machine it received from the helper
+					if helperMach == nil || helperMach != mach {
+						sameMachine = false
+					}
+					mach = nil
+					for _, r := range *helperCall.Referrers() {
+						if ex, ok := r.(*ssa.Extract); ok && ex.Index == helperMachIdx {
+							mach = ex
+						}
+					}
+				}
 				allCalls(fn, func(x ssa.CallInstruction) {
 					if what := m.vmCritical(c, x); what != "" && len(x.Common().Args) > 0 {
 						if x.Common().Args[0] != mach {
